@@ -10,6 +10,14 @@ def mon(sc, res):
 
 def run(ctx):
     scs = _scn.standard_pool(ctx, ctx.scale(25, 400), ctx.scale(80, 1200))
+    # patterns are matched relative to the COMMAND root: an anchored pattern of the outer run, carried into the nested
+    # generations, says nothing about paths relative to those nested roots
+    for pat in ("/Proxies", "/B", "Proxies/p.mov"):
+        scs.insert(0, {"profile": "c08-anchored", "root": "root", "tree": {"A/Proxies/p.mov": "p", "A/a.mov": "a", "A/B/b.mov": "b", "top.txt": "t"},
+                       "ops": [{"op": "create", "at": "A/Proxies", "h": ["md5"], "now": "2026-03-01 12:00:01"}, {"op": "create", "at": "A/B", "h": ["md5"], "now": "2026-03-01 12:00:02"},
+                               {"op": "create", "at": "A", "h": ["md5"], "now": "2026-03-01 12:00:03"}, {"op": "create", "at": "", "h": ["md5"], "now": "2026-03-01 12:00:04", "i": [pat]},
+                               {"op": "create", "at": "", "h": ["md5"], "now": "2026-03-01 12:00:05"}, {"op": "create", "at": "A", "h": ["sha1"], "now": "2026-03-01 12:00:06"},
+                               {"op": "verify", "at": ""}, {"op": "info", "at": ""}]})
     return _scn.run_scn(ctx, scs, mon, witness_ids=("D5b", "D4a"))
 
 
